@@ -146,6 +146,13 @@ impl Scenario for OrdSeq {
         let m = if rng.chance(0.1) { rng.range(1, 2) } else { rng.log_range(1, if big { 512 } else { 64 }) } as u32;
         let l = if rng.chance(0.4) { 1 } else { rng.urange(1, if big { 15 } else { 6 }) };
         let n = (l + rng.log_range(1, if big { 2000 } else { 40 }) as usize - 1).max(l);
+        // two regimes the small sizes never reach: many positions with a short sequence, and sequences longer
+        // than any internal block size
+        let (m, n) = match rng.below(100) {
+            0 | 1 => (rng.log_range(65, 1024) as u32, (l + rng.urange(0, 20)).max(l)),
+            2 => (rng.range(1, 8) as u32, rng.urange(1025, 2600)),
+            _ => (m, n),
+        };
         let alphabet = match rng.below(4) {
             0 => rng.range(1, 5),
             1 => rng.range(2, 20),
